@@ -3,7 +3,6 @@ CONSTANTS
   Conns = {"c1", "c2"}
   Mods = {"m1", "m2"}
   Used = {"debug", "info", "error", "off"}
-  Depth = 3
-CONSTRAINT Bound
+  Depth = 6
 INVARIANT Emit1
 CHECK_DEADLOCK FALSE
